@@ -13,14 +13,14 @@ class PlayBuf(ugn.MultiOutUGen):
            start_pos=0.0, loop=0.0, done_action=0):
         return cls._multi_new(
             'audio', channels, bufnum, rate,
-            trigger, start_pos, float(loop), done_action)
+            trigger, start_pos, loop, done_action)
 
     @classmethod
     def kr(cls, channels, bufnum=0, rate=1.0, trigger=1.0,
            start_pos=0.0, loop=0.0, done_action=0):
         return cls._multi_new(
             'control', channels, bufnum, rate,
-            trigger, start_pos, float(loop), done_action)
+            trigger, start_pos, loop, done_action)
 
     def _init_ugen(self, channels, *inputs):  # override
         self._inputs = inputs
@@ -53,12 +53,12 @@ class BufRd(ugn.MultiOutUGen):
     @classmethod
     def ar(cls, channels, bufnum=0, phase=0.0, loop=0.0, interpolation=2):
         return cls._multi_new(
-            'audio', channels, bufnum, phase, float(loop), interpolation)
+            'audio', channels, bufnum, phase, loop, interpolation)
 
     @classmethod
     def kr(cls, channels, bufnum=0, phase=0.0, loop=0.0, interpolation=2):
         return cls._multi_new(
-            'control', channels, bufnum, phase, float(loop), interpolation)
+            'control', channels, bufnum, phase, loop, interpolation)
 
     def _init_ugen(self, channels, *inputs):  # override
         self._inputs = inputs
@@ -80,12 +80,12 @@ class BufWr(ugn.UGen):
     @classmethod
     def ar(cls, input_list, bufnum=0, phase=0.0, loop=0.0):
         return cls._multi_new(
-            'audio', bufnum, phase, float(loop), *utl.as_list(input_list))
+            'audio', bufnum, phase, loop, *utl.as_list(input_list))
 
     @classmethod
     def kr(cls, input_list, bufnum=0, phase=0.0, loop=0.0):
         return cls._multi_new(
-            'control', bufnum, phase, float(loop), *utl.as_list(input_list))
+            'control', bufnum, phase, loop, *utl.as_list(input_list))
 
     def _check_inputs(self):  # override
         if self.rate == 'audio':
@@ -112,14 +112,14 @@ class RecordBuf(ugn.UGen):
            pre_level=0.0, run=1.0, loop=0.0, trigger=1.0, done_action=0):
         return cls._multi_new(
             'audio', bufnum, offset, rec_level, pre_level, run,
-            float(loop), trigger, done_action, *utl.as_list(input_list))
+            loop, trigger, done_action, *utl.as_list(input_list))
 
     @classmethod
     def kr(cls, input_list, bufnum=0, offset=0.0, rec_level=1.0,
            pre_level=0.0, run=1.0, loop=0.0, trigger=1.0, done_action=0):
         return cls._multi_new(
             'control', bufnum, offset, rec_level, pre_level, run,
-            float(loop), trigger, done_action, *utl.as_list(input_list))
+            loop, trigger, done_action, *utl.as_list(input_list))
 
     def __repr__(self):
         name = type(self).__name__
